@@ -28,7 +28,8 @@ CHECKS = {
         "candidates of another release, membership is plain interval membership. Spec/Specifier.v is validated against "
         "packaging.specifiers on every run; the parser and VersionRange.allows models are tied to the code by running the "
         "extracted model and parse_constraint(...).allows on the same ~110k (specifier set, candidate) cases, and VersionRange.allows itself is "
-        "re-translated from /repo on every run and proved equal to the model's (a change of meaning breaks a proof obligation); the property "
+        "re-translated from /repo on every run and proved equal to the model's (a change of meaning breaks a proof obligation); comma sets "
+        "and '||' of any clauses of the closed class of C05 ('!=' included) mean the conjunction / disjunction of the clauses; the property "
         "itself is evaluated on the implementation against SpecifierSet.contains(prereleases=True) for every in-domain case.",
    design="8/C04",
    note=BASE_NOTE + "Also proved by composition (Proofs/ParseCompose.v): what _parse_constraint builds from a comma set of range-like clauses "
@@ -45,7 +46,11 @@ CHECKS = {
         "and recursion, for every fuel; INTERSECTION exact for every shape under the decidable hypothesis that union members are "
         "sorted and apart (evaluated by the model on every generated operand: ~96% meet it); DIFFERENCE exact for every shape (range minus "
         "union, the complement used by allows/printing, the two-cursor state machine of VersionUnion.difference) under the further decidable "
-        "hypothesis that the bounds of the two operands are mutually regular (evaluated on every generated pair); results are again well-formed. The bound comparisons of "
+        "hypothesis that the bounds of the two operands are mutually regular (evaluated on every generated pair); results are again well-formed. "
+        "CLOSURE: VersionUnion.of returns its members in order and strictly apart, so constraints over mutually regular bounds with good, ordered, "
+        "separated members form a class closed under union / intersection / difference, and every expression built from the three operations "
+        "over such constraints evaluates to a constraint admitting exactly what the expression means (C05_class_closed_and_exact, "
+        "C05_every_expression: the sortedness hypothesis is no longer only evaluated, it is preserved). The bound comparisons of "
         "version_range_constraint.py are re-translated from /repo on every run and proved equal to the model's (a change of meaning "
         "breaks a proof obligation). All operations at every level are also decided by correspondence: model and implementation run "
         "on the same 2500 generated pairs x 3 operations per quick run, compared structurally and on ~35 critical probes per case; "
